@@ -289,9 +289,10 @@ def run(ctx):
     cap = None
     rr = repo.func('wpull.protocol.http.stream:Stream.read_response')
     for n in walk_no_nested(rr.node):
-        if isinstance(n, ast.Compare) and isinstance(n.ops[0], (ast.Gt, ast.GtE)) and isinstance(n.comparators[0], ast.Constant) \
-                and isinstance(n.comparators[0].value, int) and n.comparators[0].value >= 1024:
-            cap = n.comparators[0].value
+        if isinstance(n, ast.Compare) and len(n.ops) == 1 and isinstance(n.ops[0], (ast.Gt, ast.GtE, ast.Lt, ast.LtE)):
+            for side in (n.left, n.comparators[0]):
+                if isinstance(side, ast.Constant) and isinstance(side.value, int) and not isinstance(side.value, bool) and side.value >= 1024:
+                    cap = side.value
     if cap is None:
         raise AnalysisError('header size cap not found in Stream.read_response')
     reads = [(gh, c, {}) for c in U.calls(gh.node, attr='read')]
